@@ -404,3 +404,21 @@ impl Prop for C07P {
         }
     }
 }
+
+// Source text -> H through the reference tokenizer and the reference chart parser (no gram code).
+pub fn parse_to_h(src: &str) -> Option<crate::hast::H> {
+    let g = grammar().as_ref().ok()?;
+    let toks = rtok::rtok(src).ok()?;
+    if toks.len() > 400 {
+        return None;
+    }
+    let kinds: Vec<TK> = toks.iter().map(|t| t.kind).collect();
+    let texts: Vec<String> = toks.iter().map(|t| src[t.start..t.end].to_owned()).collect();
+    let mut chart = Chart::new(g, &kinds);
+    if chart.derivations() != 1 {
+        return None;
+    }
+    let tree = chart.tree()?;
+    let h = tree_to_h(g, &tree, &texts).ok()?;
+    Some(reassociate(&h))
+}
